@@ -1,5 +1,5 @@
 (* C16 -- Link-format documents produced by the writer parse back to the same content. *)
-From CoapV Require Import Base LinkFormat Suite16 proofs.P16 proofs.P16b.
+From CoapV Require Import Base LinkFormat Suite16 proofs.P16 proofs.P16b proofs.P16c.
 
 (* for every document (any number of links and attributes, values of any length; targets
    without '>', keys free of separators, quoted values arbitrary, plain values alphanumeric,
@@ -27,6 +27,18 @@ Print Assumptions C16_integer_text.
 Theorem C16_integer_in_domain : forall n, n < 10 ^ 40 -> aval_wf (AInt (digits n)) = true.
 Proof. exact int_attr_wf. Qed.
 Print Assumptions C16_integer_in_domain.
+
+(* the documents the correspondence suite judges (doc_in_ok: what its reader accepts and its oracle does not skip)
+   all lie inside the domain of C16_roundtrip, whichever of attr(), attr_quoted(), attr_u32(), attr_u16() wrote each value *)
+Theorem C16_oracle_domain_inside : forall d, doc_in_ok d = true -> doc_wf (doc_of_in d) = true.
+Proof. exact doc_in_wf. Qed.
+Print Assumptions C16_oracle_domain_inside.
+
+(* the model passes the suite-160 run-time oracle on every case: what a consumer strips from the three iterators
+   (targets, keys, the two unquoted forms of every value) equals what the case named, for every document in the domain *)
+Theorem C16_model_passes_oracle : forall s, rd_case160 s <> None -> verdict160 s (run160 s) = true.
+Proof. exact model_passes_oracle160. Qed.
+Print Assumptions C16_model_passes_oracle.
 
 Example C16_example :
   let d := [([47; 97], [attr_auto [116] [34; 44; 59; 92; 10]; ([110], AInt (digits 40))]); ([], [])] in
